@@ -29,6 +29,9 @@ var table = map[string]func(props.Cfg) int{
 	"C15": props.C15,
 	"C16": props.C16,
 	"C17": props.C17,
+	"C18": props.C18,
+	"C19": props.C19,
+	"C20": props.C20,
 }
 
 func main() {
